@@ -213,6 +213,15 @@ abbrev Bound (α : Type) := List (String × PyVal α)
 
 def hasKey {γ : Type} (k : String) (b : List (String × γ)) : Bool := b.any (fun kv => kv.1 == k)
 
+/-- `jnp.concatenate(v.ravel())` for a block array `v`: `BlockArray.ravel` is the lifted method
+    (so an empty block array fails with `IndexError` before anything is concatenated) -/
+def ravelCatVia [DecidableEq δ] (E : Env α δ) (ravel : α → Res α) (concat : List α → Res α)
+    (l : List α) : Res α :=
+  match liftMethod E ravel l with
+  | .error e => .error e
+  | .ok (.blk r) => concat r
+  | .ok (.tup r) => concat r
+
 /-- `{k: jnp.concatenate(v.ravel()) for k, v in ba_args.items()}`, one entry -/
 def catArg (ravelCat : List α → Res α) (kv : String × PyVal α) : Res (String × PyVal α) :=
   match kv.2 with
